@@ -2,9 +2,10 @@ SPECIFICATION Spec
 CONSTANTS
   Behaviors = {"A", "B", "C"}
   MaxOps = 3
+  MaxRestarts = 2
   Defects = {}
   MaxDepth = 7
 CONSTRAINT Bound
 VIEW View
 INVARIANTS Refines WellFormed TypeOK
-PROPERTIES HandlerIsIdealTop FinishesUnderStarter
+PROPERTIES HandlerIsIdealTop FinishesUnderStarter RestartRestoresDefault
